@@ -224,8 +224,8 @@ def step (s : St) (opToks : List String) (impl : Option (List String)) : St × S
       if !s.implOk then ({ s with m := m', ren := ren' }, line, "-")
       else match parseImpl s.impl t with
         | none => ({ s with m := m', ren := ren', implOk := false }, line, "-")
-        | some (out, _fired, a) =>
-          let verdict := match checkStep NREG s.impl op out a with
+        | some (out, fired, a) =>
+          let verdict := match checkStep NREG s.impl op out fired a with
             | none => "ok"
             | some c => "FAIL:" ++ c
           ({ m := m', ren := ren', impl := a, implOk := true }, line, verdict)
